@@ -51,13 +51,29 @@ Theorem C12_established_restored :
 Proof. exact established_restored. Qed.
 Print Assumptions C12_established_restored.
 
-(* Addresses are reserved again before any new allocation (restore level): if the store images of different
-   sessions do not share an in-pool address, then after the restart every in-pool address of every restored session
-   is leased to that session in the allocator, so no admissible fresh allocation returns it.
-   PARTIAL: the premise [disjoint_images] is not yet derived from the history invariant (under [c_ordered] it
-   follows from "store image addresses = live addresses" + this lemma's own conclusion; that induction is written
-   down in notes/C12.md but not mechanised).  Everything else is at full strength (all states, all pool sizes). *)
-Theorem C12_reserved_before_alloc_partial :
+(* Addresses are reserved again before any new subscriber can be allocated one.  For every history (any completion
+   order, crashes and restores anywhere — so in particular in the state right after a restart and at every later
+   point) under the repaired write order, for IPoE or for PPPoE with the reservation in installInMemoryState:
+   (1) every in-pool address of every session in the index is leased to that very session in the allocator;
+   (2) hence no admissible answer of a fresh allocation (a free address of the pool) is an address of any session
+       in the index — restored or not;
+   (3) no two sessions in the index hold the same in-pool address.
+   [pools_small]: the model's "static" addresses (index >= 1000) lie outside every pool. *)
+Theorem C12_reserved_before_alloc :
+  forall c ops s,
+  c_ordered c = true -> reserves c -> pools_small c -> run c init ops = Some s ->
+  (forall k r ad, aget k (live s) = Some r -> In ad (addrs r) -> inpool c ad = true ->
+                  aget ad (leases s) = Some k) /\
+  (forall fam a, fam < 3 -> alloc_ok c (leases s) fam (Some a) = true ->
+                 forall k r, aget k (live s) = Some r -> ~ In (code fam a) (addrs r)) /\
+  (forall k k' r r' ad, aget k (live s) = Some r -> aget k' (live s) = Some r' ->
+                 In ad (addrs r) -> In ad (addrs r') -> inpool c ad = true -> k = k').
+Proof. exact reserved_before_alloc. Qed.
+Print Assumptions C12_reserved_before_alloc.
+
+(* the restore step on its own, from ANY stopped state (not only reachable ones): if the store images of different
+   sessions share no in-pool address, the restart leaves every restored session's in-pool addresses leased to it *)
+Theorem C12_reserved_by_restore :
   forall c s (p : bool) f now,
   reserves c -> disjoint_images c (store s) ->
   let s' := fst (do_crash c s p f now) in
@@ -66,7 +82,7 @@ Theorem C12_reserved_before_alloc_partial :
   (forall fam a, fam < 3 -> alloc_ok c (leases s') fam (Some a) = true ->
                  forall k r, aget k (live s') = Some r -> ~ In (code fam a) (addrs r)).
 Proof. exact reserved_after_restore. Qed.
-Print Assumptions C12_reserved_before_alloc_partial.
+Print Assumptions C12_reserved_by_restore.
 
 (* today's PPPoE restore never re-reserves: after the restart the allocator may hand session 1 the address of the
    restored session 0 (write ordering repaired, so this is the second defect alone) *)
@@ -100,6 +116,7 @@ Example C12_nonvacuous :
     (exists r, aget 1 (store s) = Some r /\ expired (repaired PPPoE 4 4 2) 0 r = false /\
                replayed (repaired PPPoE 4 4 2) r = true) /\
     disjoint_images (repaired PPPoE 4 4 2) (store s) /\ reserves (repaired PPPoE 4 4 2) /\
+    pools_small (repaired PPPoE 4 4 2) /\ c_ordered (repaired PPPoE 4 4 2) = true /\
     let s' := fst (do_crash (repaired PPPoE 4 4 2) s true None 0) in
     aget 0 (live s') = None /\ (exists r', aget 1 (live s') = Some r' /\ s_v4 r' = Some 1 /\ s_swif r' = 101) /\
     aget (code 0 1) (leases s') = Some 1 /\
@@ -113,6 +130,7 @@ Proof.
     destruct (k =? 1) eqn:E; [|discriminate]. destruct (k' =? 1) eqn:E'; [|discriminate].
     apply N.eqb_eq in E, E'. congruence. }
   split; [right; reflexivity|].
+  split; [unfold pools_small, static_base; cbn; repeat split; discriminate|]. split; [reflexivity|].
   vm_compute. repeat split; try reflexivity. eexists. repeat split.
 Qed.
 Print Assumptions C12_nonvacuous.
